@@ -86,6 +86,8 @@ func (w *World) checkAnyWriters(r *Report, rule, pkgRel, typ, field string, allo
 		seen[key] = true
 		if why, ok := allowed[name]; ok {
 			r.OK(rule, key, "allowed writer: "+why, site(w, x.In))
+		} else if via, ok := w.onlyReachedFrom(x.Fn, allowed, 0, map[*ssa.Function]bool{}); ok {
+			r.OK(rule, key, "helper of an allowed writer: every call of it comes from "+via, site(w, x.In))
 		} else {
 			r.Violate(rule, key, fmt.Sprintf("%s.%s is written outside its primitives (closed set: %s)", typ, field, strings.Join(sortedKeysS(allowed), ", ")), nil, site(w, x.In))
 		}
